@@ -757,13 +757,16 @@ Lemma sess_down_ok : forall s,
                  (s_addr s <> None -> s_addr (fst (sess_down repaired s)) <> None)).
 Proof.
   intros s. unfold sess_down. destruct (s_owner s); try (split; auto; fail).
-  destruct (sess_fsm_only repaired s (s_cfg s) (down_event (s_fsm s))) as [s' a] eqn:E.
-  split.
-  - intros (H1 & H2 & H3). revert E. unfold sess_fsm_only. rewrite H1, H2, H3. simpl.
-    intros E; inversion E; subst. unfold sess_idle. simpl. auto.
-  - intros H. pose proof (sess_fsm_only_inv s (s_cfg s) (down_event (s_fsm s)) H eq_refl) as [A B].
-    rewrite E in A, B. simpl in *. split; [|exact B].
-    destruct A as (v & Hv & Hl & Hz & Ha & Hp). exists v. simpl. auto.
+  - destruct (sess_fsm_only repaired s (s_cfg s) (down_event (s_fsm s))) as [s' a] eqn:E.
+    split.
+    + intros (H1 & H2 & H3). revert E. unfold sess_fsm_only. rewrite H1, H2, H3. simpl.
+      intros E; inversion E; subst. unfold sess_idle. simpl. auto.
+    + intros H. pose proof (sess_fsm_only_inv s (s_cfg s) (down_event (s_fsm s)) H eq_refl) as [A B].
+      rewrite E in A, B. simpl in *. split; [|exact B].
+      destruct A as (v & Hv & Hl & Hz & Ha & Hp). exists v. simpl. auto.
+  - split.
+    + intros (H1 & H2 & H3). unfold sess_idle, sess_fsm_only. rewrite H1, H2, H3. simpl. auto.
+    + intros H. apply sess_fsm_only_inv; auto.
 Qed.
 
 Lemma sess_reauth_ok : forall s aaa orc, sess_ok s -> sess_ok (fst (sess_step_live repaired s (EvReauth aaa orc))).
@@ -772,11 +775,14 @@ Proof.
   assert (HD : sess_ok (fst (sess_down repaired s))).
   { pose proof (sess_down_ok s) as [A B]. destruct H as [H|H]; [left; auto|right; apply B; auto]. }
   destruct (s_owner s) eqn:Eo; try exact HD.
-  set (addr := match extract_ip repaired aaa with Some x => Some x | None => s_addr s end).
-  destruct (start_ncp_spec LNS (s_cfg s) (s_fsm s) (s_peer s) addr (s_open s) (s_lastreq s) (s_dns s) orc)
-    as [(v & Hv & Hl & Hz & Ha & Hp)|(E1 & E2 & E3 & E4 & E5)].
+  destruct (sess_down repaired s) as [s1 a1] eqn:D. simpl in HD.
+  set (addr := match extract_ip repaired aaa with Some x => Some x | None => s_addr s1 end).
+  pose proof (start_ncp_spec LNS (s_cfg s1) (s_fsm s1) (s_peer s1) addr (s_open s1) (s_lastreq s1) (s_dns s1) orc) as SP.
+  destruct (start_ncp repaired LNS (s_cfg s1) (s_fsm s1) (s_peer s1) addr (s_open s1) (s_lastreq s1) (s_dns s1) orc)
+    as [s2 a2]. simpl in *.
+  destruct SP as [(v & Hv & Hl & Hz & Ha & Hp)|(E1 & E2 & E3 & E4 & E5)].
   - right. exists v. repeat split; auto.
-  - destruct H as [(I1 & I2 & I3)|(v & Hv & Hl & Hz & Ha & Hp)].
+  - destruct HD as [(I1 & I2 & I3)|(v & Hv & Hl & Hz & Ha & Hp)].
     + left. unfold sess_idle. rewrite E2, E4, E5. auto.
     + right. exists v. rewrite E1, E3, E4. repeat split; auto.
 Qed.
@@ -859,13 +865,14 @@ Proof.
     { pose proof (sess_down_ok s) as [A B].
       destruct H as [H|[H Hne]]; [left; auto|right; destruct (B H); auto]. }
     destruct (s_owner s) eqn:Eo; try exact HD.
-    set (addr := match extract_ip repaired aaa with Some x => Some x | None => s_addr s end).
-    pose proof (start_ncp_spec LNS (s_cfg s) (s_fsm s) (s_peer s) addr (s_open s) (s_lastreq s) (s_dns s) orc) as SP.
-    destruct (start_ncp repaired LNS (s_cfg s) (s_fsm s) (s_peer s) addr (s_open s) (s_lastreq s) (s_dns s) orc)
+    destruct (sess_down repaired s) as [s1 a1] eqn:D. simpl in HD.
+    set (addr := match extract_ip repaired aaa with Some x => Some x | None => s_addr s1 end).
+    pose proof (start_ncp_spec LNS (s_cfg s1) (s_fsm s1) (s_peer s1) addr (s_open s1) (s_lastreq s1) (s_dns s1) orc) as SP.
+    destruct (start_ncp repaired LNS (s_cfg s1) (s_fsm s1) (s_peer s1) addr (s_open s1) (s_lastreq s1) (s_dns s1) orc)
       as [s2 a2] eqn:SN. simpl in *.
     destruct SP as [(v & Hv & Hl & Hz & (a & Ha & Hto) & Hp)|(E1 & E2 & E3 & E4 & E5)].
     + right. split; [exists v; repeat split; auto; right; exists a; auto|rewrite Ha; discriminate].
-    + destruct H as [(I1 & I2 & I3)|(Hinv & Hne)].
+    + destruct HD as [(I1 & I2 & I3)|(Hinv & Hne)].
       * left. unfold sess_idle. rewrite E2, E4, E5. auto.
       * exfalso. destruct Hinv as (v & Hv & Hl & Hz & Ha & Hp).
         destruct Ha as [Ha|(a0 & Ha0 & Hto0)]; [contradiction|].
@@ -874,7 +881,7 @@ Proof.
           rewrite Ha0. simpl. rewrite Hto0, Hz. reflexivity. }
         destruct addr as [x|] eqn:Ea; [|discriminate].
         revert SN. unfold start_ncp. cbn [f_always repaired]. rewrite orb_false_r.
-        rewrite Hu; unfold ipcp_set_peer; destruct (up_open (s_fsm s));
+        rewrite Hu; unfold ipcp_set_peer; destruct (up_open (s_fsm s1));
           intros SN; inversion SN; subst; simpl in E4; discriminate.
   - assert (Hre' : is_reauth_b e = false) by exact Hre.
     destruct H as [H|(H & Hne)]; [left; apply sess_step_idle; auto|right].
@@ -1560,8 +1567,9 @@ Proof. intros fl s c [a st]. unfold sess_fsm_only. destruct (fold_left _ _ _). r
 Lemma sess_down_no_sca : forall fl s, no_sca (snd (sess_down fl s)).
 Proof.
   intros fl s. unfold sess_down. destruct (s_owner s); try (intros id os []).
-  pose proof (sess_fsm_only_acts fl s (s_cfg s) (down_event (s_fsm s))) as X.
-  destruct (sess_fsm_only fl s (s_cfg s) (down_event (s_fsm s))) as [s' a]. simpl in *. rewrite X. apply no_sca_down.
+  - pose proof (sess_fsm_only_acts fl s (s_cfg s) (down_event (s_fsm s))) as X.
+    destruct (sess_fsm_only fl s (s_cfg s) (down_event (s_fsm s))) as [s' a]. simpl in *. rewrite X. apply no_sca_down.
+  - rewrite sess_fsm_only_acts. apply no_sca_down.
 Qed.
 
 Lemma start_ncp_no_sca : forall fl ow c st p addr op last dns orc,
@@ -1599,7 +1607,15 @@ Proof.
   - rewrite sess_fsm_only_acts in Hin. exfalso. destruct (N.eqb (s_fsm s) 5); simpl in Hin; contradiction.
   - exfalso. eapply sess_down_no_sca; exact Hin.
   - exfalso. destruct (s_owner s); try (eapply sess_down_no_sca; exact Hin).
-    eapply start_ncp_no_sca; exact Hin.
+    destruct (sess_down repaired s) as [s1 a1] eqn:D.
+    destruct (start_ncp repaired LNS (s_cfg s1) (s_fsm s1) (s_peer s1) _ (s_open s1) (s_lastreq s1) (s_dns s1) orc)
+      as [s2 a2] eqn:SN.
+    simpl in Hin. apply in_app_or in Hin. destruct Hin as [Hin|Hin].
+    + pose proof (sess_down_no_sca repaired s) as H. rewrite D in H. eapply H; exact Hin.
+    + pose proof (start_ncp_no_sca repaired LNS (s_cfg s1) (s_fsm s1) (s_peer s1)
+                    (match extract_ip repaired aaa with Some x => Some x | None => s_addr s1 end)
+                    (s_open s1) (s_lastreq s1) (s_dns s1) orc) as H.
+      rewrite SN in H. eapply H; exact Hin.
 Qed.
 
 Lemma session_acks_only_assigned : forall s0 es e id os,
@@ -1690,9 +1706,19 @@ Qed.
 Lemma sess_down_fsm_ok : forall s, fsm_ok s -> fsm_ok (fst (sess_down repaired s)).
 Proof.
   intros s H. unfold sess_down. destruct (s_owner s); try exact H.
-  pose proof (sess_fsm_only_fsm_ok s (s_cfg s) (down_event (s_fsm s)) H (tr_down (s_fsm s))) as X.
-  destruct (sess_fsm_only repaired s (s_cfg s) (down_event (s_fsm s))) as [s' a]. simpl in *.
-  destruct X as (X1 & X2 & X3). unfold fsm_ok. simpl. auto.
+  - pose proof (sess_fsm_only_fsm_ok s (s_cfg s) (down_event (s_fsm s)) H (tr_down (s_fsm s))) as X.
+    destruct (sess_fsm_only repaired s (s_cfg s) (down_event (s_fsm s))) as [s' a]. simpl in *.
+    destruct X as (X1 & X2 & X3). unfold fsm_ok. simpl. auto.
+  - apply sess_fsm_only_fsm_ok; auto. apply tr_down.
+Qed.
+
+(* after onLCPDown the NCP of a session that is kept (LNS) is in Initial or Starting *)
+Lemma sess_down_lns_state : forall s, s_owner s = LNS -> (s_fsm s <= 9)%N ->
+  (s_fsm (fst (sess_down repaired s)) = 0%N \/ s_fsm (fst (sess_down repaired s)) = 1%N).
+Proof.
+  intros s Ho Hle. unfold sess_down. rewrite Ho. unfold sess_fsm_only.
+  destruct (down_event (s_fsm s)) as [a st'] eqn:E. destruct (fold_left _ _ _). simpl.
+  revert E Hle. unfold down_event. split_matches; intros E Hle; inversion E; subst; auto; lia.
 Qed.
 
 Lemma sess_step_fsm_ok : forall s e, sess_ok s -> fsm_ok s -> fsm_ok (fst (sess_step_live repaired s e)).
@@ -1717,24 +1743,20 @@ Proof.
   - apply sess_down_fsm_ok. exact Hf.
   - (* EvReauth *)
     destruct (s_owner s) eqn:Eo; try (apply sess_down_fsm_ok; exact Hf).
-    set (addr := match extract_ip repaired aaa with Some x => Some x | None => s_addr s end).
-    destruct Hf as (F1 & F2 & F3).
+    pose proof (sess_down_fsm_ok s Hf) as Hf1.
+    pose proof (sess_down_lns_state s Eo (proj1 Hf)) as Hst1.
+    destruct (sess_down repaired s) as [s1 a1] eqn:D. simpl in Hf1, Hst1.
+    set (addr := match extract_ip repaired aaa with Some x => Some x | None => s_addr s1 end).
+    destruct Hf1 as (F1 & F2 & F3).
     unfold start_ncp. cbn [f_always repaired]. rewrite orb_false_r.
     set (addr1 := match addr with None => or_alloc orc | Some a => Some a end).
     destruct (usable addr1) eqn:Hu.
     + destruct (match addr1 with None => _ | _ => _ end) as [c1 p1].
-      destruct (up_open_props (s_fsm s) F1) as [U1 U2].
-      destruct (up_open (s_fsm s)) as [a st'] eqn:E. simpl in *.
+      destruct (up_open_props (s_fsm s1) F1) as [U1 U2].
+      destruct (up_open (s_fsm s1)) as [a st'] eqn:E. simpl in *.
       unfold fsm_ok. simpl. split; [exact U1|]. split; [intros Hop; eapply U2; eauto|].
       intros Hn. rewrite Hn in Hu. discriminate.
-    + simpl. unfold fsm_ok. simpl. split; [exact F1|]. split; [exact F2|]. intros _.
-      (* LNS: an unusable address after the registry step means there was none before *)
-      apply F3. destruct Hok as [(I1 & I2 & I3)|(v & Hv & Hl & Hz & Ha & Hp)]; [exact I2|].
-      destruct Ha as [Ha|(a0 & Ha0 & Hto0)]; [exact Ha|]. exfalso.
-      assert (Hua : usable addr = true).
-      { unfold addr. destruct (extract_ip repaired aaa) eqn:E; [eapply extract_repaired_usable; eauto|].
-        rewrite Ha0. simpl. rewrite Hto0, Hz. reflexivity. }
-      unfold addr1 in Hu. destruct addr as [x|]; [|discriminate]. rewrite Hua in Hu. discriminate.
+    + simpl. unfold fsm_ok. simpl. split; [exact F1|]. split; [exact F2|]. intros _. exact Hst1.
 Qed.
 
 Lemma sess_run_fsm_ok : forall es s, sess_ok s -> fsm_ok s -> fsm_ok (sess_run repaired s es).
